@@ -18,7 +18,7 @@ from collada import primitive
 from collada import triangleset
 from collada.common import E
 from collada.common import DaeIncompleteError, DaeMalformedError
-from collada.util import checkSource
+from collada.util import checkSource, parseUIntArray
 
 
 class Polygon(object):
@@ -314,7 +314,7 @@ class Polylist(primitive.Primitive):
             if vcountnode.text is None or vcountnode.text.isspace():
                 vcounts = numpy.array([], dtype=numpy.int32)
             else:
-                vcounts = numpy.fromstring(vcountnode.text, dtype=numpy.int32, sep=' ')
+                vcounts = parseUIntArray(vcountnode.text)
             vcounts[numpy.isnan(vcounts)] = 0
         except ValueError:
             raise DaeMalformedError('Corrupted vcounts in polylist')
@@ -325,7 +325,7 @@ class Polylist(primitive.Primitive):
             if indexnode.text is None or indexnode.text.isspace():
                 index = numpy.array([], dtype=numpy.int32)
             else:
-                index = numpy.fromstring(indexnode.text, dtype=numpy.int32, sep=' ')
+                index = parseUIntArray(indexnode.text)
             index[numpy.isnan(index)] = 0
         except BaseException:
             raise DaeMalformedError('Corrupted index in polylist')
